@@ -172,6 +172,7 @@ func checkC13(w *World, r *Report) {
 	r.Rule("C13.authfail", "P5", "the other edge of the authority comparison leads only to returns of a non-nil error", 7)
 	r.Rule("C13.gov", "P6,P8", "each keeper's authority field is the NewKeeper parameter; app.New passes appparams.GetAuthority(); its backing variable has a single writer assigning NewModuleAddress(gov.ModuleName).String(), called from the package init", 8)
 	r.Rule("C13.validated", "P4,P5", "every store write to a module's ParamsKey is reached only through the nil edge of Validate() on the value that is marshalled", 7)
+	r.Rule("C13.endtime", "P7", "stored minter parameters keep the shape the block routine relies on: parameter validation rejects, on every path, a last period with an EndTime and a non-last period without one, and accepts the two well-formed combinations (the validation step explored under the four combinations of position and nil-ness)", 4)
 	r.Rule("C13.current", "P5", "every cfeminter parameter write reachable from a message is reached only through the true edge of ContainsMinter(current state's SequenceId)", 2)
 	r.Rule("C13.denom", "P5", "the vesting denom update is reached only through the edge on which the list of all vesting pools is empty", 1)
 	if !ro.checkFloors(r) {
@@ -386,6 +387,7 @@ func checkC13(w *World, r *Report) {
 				}, true)
 			}}
 		containsMinterRule(w, r, "C13.current")
+		endTimeShapeRule(w, r, "C13.endtime")
 		for _, h := range ro.MSG["cfeminter"] {
 			res := cg.GuardCover(h, func(s *Site) bool {
 				if cg.Atom(s) != StoreSet {
@@ -520,4 +522,86 @@ func checkValidatedParamWrites(w *World, r *Report, rule string, keep func(*ssa.
 	}
 
 	return pkeys
+}
+
+// endTimeShapeRule: the shape of the configured periods that the block routine relies on is exactly what parameter
+// validation enforces: the last period has no EndTime, every other period has one. The validation step that takes a
+// period and its position is explored under the four combinations (last / not last) x (EndTime nil / not nil): it must
+// fail in the two wrong ones on every live path and succeed in the two right ones. A condition weakened by a further
+// test ("nil, or the zero time") leaves a succeeding path live in a wrong combination.
+func endTimeShapeRule(w *World, r *Report, rule string) {
+	fn := w.Func("x/cfeminter/types.Params.validateEndTimeExistance")
+	if fn == nil {
+		r.Unk("infra.anchor", "x/cfeminter/types.Params.validateEndTimeExistance", "", "anchor not found")
+		return
+	}
+	var ints []*ssa.Parameter
+	for _, p := range fn.Params {
+		if b, ok := p.Type().Underlying().(*types.Basic); ok && b.Info()&types.IsInteger != 0 {
+			ints = append(ints, p)
+		}
+	}
+	if len(ints) != 2 {
+		r.Unk(rule, "end-time validation takes a position and the last position", w.Pos(fn.Pos()), "unexpected parameters")
+		return
+	}
+	term := func(v ssa.Value) string {
+		switch {
+		case v == ssa.Value(ints[0]) || normLocal(v) == ssa.Value(ints[0]):
+			return "pos"
+		case v == ssa.Value(ints[1]) || normLocal(v) == ssa.Value(ints[1]):
+			return "last"
+		case loadOfField(v, "EndTime", nil):
+			return "end"
+		}
+		return ""
+	}
+	for _, c := range []struct {
+		name     string
+		sign     int
+		endNil   bool
+		mustFail bool
+	}{
+		{"last period with an EndTime is rejected", 0, false, true},
+		{"non-last period without an EndTime is rejected", -1, true, true},
+		{"last period without an EndTime is accepted", 0, true, false},
+		{"non-last period with an EndTime is accepted", -1, false, false},
+	} {
+		c := c
+		live := ReachUnder(fn, OrderEval(term, twoTermCmp("pos", "last", c.sign), func(t string) (bool, bool) {
+			if t == "end" {
+				return c.endNil, true
+			}
+			return false, false
+		}))
+		nFail, nOK := 0, 0
+		for _, ret := range Returns(fn) {
+			if !live.Blocks[ret.Block()] {
+				continue
+			}
+			rv := retVals(ret)
+			failing := len(rv) > 0 && isErrorType(rv[len(rv)-1].Type())
+			if failing {
+				failing = false
+				vals := live.LiveValues(rv[len(rv)-1])
+				allNonNil := len(vals) > 0
+				for _, v := range vals {
+					if isNilConst(v) {
+						allNonNil = false
+					}
+				}
+				failing = allNonNil
+			}
+			if failing {
+				nFail++
+			} else {
+				nOK++
+			}
+		}
+		if c.mustFail {
+			r.Check(nOK == 0 && nFail > 0, rule, c.name, w.Pos(fn.Pos()), "every live return carries an error", "parameter validation can accept a period list in which "+strings.TrimSuffix(c.name, " is rejected")+": the block routine then closes the last period (or dereferences a missing EndTime) and finds no successor")
+		} else {
+			r.Check(nFail == 0 && nOK > 0, rule, c.name, w.Pos(fn.Pos()), "no live return carries an error", "parameter validation rejects a well-formed period list")
+		}
+	}
 }
